@@ -37,8 +37,11 @@ def main():
             return 1 if mism else 0
         # product: every cell once on a fresh object; pairs: every ordered pair of Access+Call steps on the SAME decorated
         # attribute (all access paths x conventions; quick: pattern pos, thorough: pos and kwonly)
-        runs = [("product", {"CALLS": "1", "PATS": "all"}),
-                ("pairs", {"CALLS": "2", "PATS": "one" if tier == "quick" else "few"})]
+        # WRAPS = layers of foreign `.fn`-exposing wrappers around the accessed object (0..WRAPS)
+        runs = [("product", {"CALLS": "1", "PATS": "all", "WRAPS": "2"}),
+                ("pairs", {"CALLS": "2", "PATS": "one", "WRAPS": "1"})]
+        if tier == "thorough":
+            runs.append(("pairs2", {"CALLS": "2", "PATS": "few", "WRAPS": "0"}))
         cases, states, transitions, ok, alarms, tails = [], 0, 0, True, [], []
         for name, env in runs:
             hs, res = sat.tlc_histories("Decorators", "Decorators.cfg", sc, env=env)
@@ -69,7 +72,8 @@ def main():
         if alarms and not verdict.violations:
             raise MachineryError("; ".join(alarms) + " on Decorators.tla but the real callables follow every prescribed cell: the model is wrong\n" + "\n".join(tails))
         calls = [(c, o) for c in cases for o in c["h"]]
-        cells = {(c["deco"], c["defk"], c["body"], o["via"], o["argp"], o["conv"]) for c, o in calls}
+        cells = {(c["deco"], c["defk"], c["body"], o["via"], o["wrap"], o["argp"], o["conv"]) for c, o in calls}
+        wrapped_calls = sum(1 for c, o in calls if o["wrap"])
         nontriv = sum(1 for c, o in calls if o["res"]["bound"] != "none" or o["res"]["ran"] == "sync")
         pairs = [c for c in cases if len(c["h"]) == 2]
         cross = sum(1 for c in pairs if c["h"][0]["via"] != c["h"][1]["via"])
@@ -81,15 +85,16 @@ def main():
             "states": states, "transitions": transitions, "traces_validated_against_impl": total,
             "samples": cases[:1] + cases[len(cases) // 2: len(cases) // 2 + 1] + cases[-1:],
             "histories": len(cases), "pair_histories": len(pairs), "pairs_through_different_access_paths": cross,
-            "pairs_with_different_bound_objects": rebound, "calls_per_build": len(calls), "distinct_cells": len(cells), "calls_per_decorator": per_deco,
+            "pairs_with_different_bound_objects": rebound, "calls_per_build": len(calls), "calls_through_foreign_wrappers": wrapped_calls, "distinct_cells": len(cells), "calls_per_decorator": per_deco,
             "builds": list(builds), "tlc_runs": [dict(env, name=name) for name, env in runs],
             "bindings": sorted({"%s/%s" % (c["defk"], o["via"]) for c, o in calls}),
             "conventions": sorted({o["conv"] for c, o in calls}), "argument_patterns": sorted({o["argp"] for c, o in calls}),
             "bodies": sorted({c["body"] for c in cases}),
             "model_invariants": INVARIANTS, "model_ok": ok, "mismatching_histories": nmis,
             "evaluations": total, "distinct_nontrivial": nontriv,
-            "rule": "complete product decorator kind x binding x argument pattern x body x calling convention, plus every ordered pair of Access+Call "
-                    "steps on one decorated attribute (all access paths x conventions; pattern pos, thorough: pos/kwonly), each call prescribed as if alone; "
+            "rule": "complete product decorator kind x binding x 0-2 foreign wrappers x argument pattern x body x calling convention, plus every ordered pair of "
+                    "Access+Call steps on one decorated attribute (all access paths x 0-1 wrappers x conventions; pattern pos, thorough: also pos/kwonly unwrapped), "
+                    "each call prescribed as if alone; "
                     "non-trivial = the call has a bound first argument or runs sync_fn",
             "exhaustive": True,
         }
@@ -105,6 +110,9 @@ def main():
             "@asynq(pure=True) has no .asynq attribute: that convention is not part of its cells; the yield convention yields the call itself, as is_pure_async_fn says",
             "get_async_fn / get_async_or_sync_fn are exercised as two further conventions (call what they return); which object they return is not prescribed, only None-ness",
             "method via class = C.meth(inst, ...); classmethods additionally through a subclass and a subclass instance; a falsy instance (__bool__ False) is one of the bindings",
+            "a foreign wrapper is a plain synchronous callable object exposing the wrapped callable as `.fn` (no asynq / is_pure_async_fn of its own, attributes can be "
+            "set on it) whose call forwards to the direct call: it is pure exactly when what it wraps is pure, it has no .asynq, get_async_fn gives None unless pure, "
+            "and sync_fn runs on every way of calling it; the helpers are asked before and after the call and must answer alike (memoisation)",
             "the asyncio conventions (.asyncio) are C15's subject and not part of these cells",
             "TLC and the replay harness are trusted"], tier_=tier)
         return rc
